@@ -29,13 +29,15 @@ type histOp struct {
 }
 
 type taskState struct {
-	name   string
-	idx    int
-	cl     kvs.Storage
-	seen   map[string][]string // versions observed per key
-	done   bool
-	bogus  int
-	waiter *waitState
+	scribbleT []*time.Time
+	scribble  [][]byte // value buffers this caller overwrites after its current operation
+	name      string
+	idx       int
+	cl        kvs.Storage
+	seen      map[string][]string // versions observed per key
+	done      bool
+	bogus     int
+	waiter    *waitState
 }
 
 // C07 bookkeeping
@@ -101,6 +103,7 @@ type world struct {
 	opStart       map[string]time.Time // task -> start of its current operation
 	opStall0      map[string]time.Duration
 	srvErr        [][2]time.Time  // periods in which the Redis server answered with errors
+	scribble      [][]byte        // value buffers the caller overwrites after the current operation
 	lastFar       map[string]bool // the last successful write of the key carried no or a far expiry
 	byTask        map[string]*taskState
 	// cancellations tied to the next mutation of a key (C07)
@@ -328,6 +331,44 @@ func (w *world) srvErrDuring(a, b time.Time) bool {
 	return false
 }
 
+// buf: the value buffer a caller passes to a write. With knob reuse_buffers the caller
+// overwrites it as soon as the call has returned (a buffer that is reused for the next
+// message): what the storage keeps must not change with it.
+func (w *world) buf(ts *taskState, v string) []byte {
+	b := []byte(v)
+	if w.c.Knob("reuse_buffers", 0) == 1 && len(b) > 0 {
+		ts.scribble = append(ts.scribble, b)
+	}
+	return b
+}
+
+// expBuf: the same for the time value an ExpiresAt pointer refers to.
+func (w *world) expBuf(ts *taskState, exp *time.Time) *time.Time {
+	if exp == nil || w.c.Knob("reuse_buffers", 0) == 0 {
+		return exp
+	}
+	cp := *exp
+	ts.scribbleT = append(ts.scribbleT, &cp)
+	return &cp
+}
+
+// reuseBuffers overwrites the buffers handed to (or, on the in-memory backend, returned by)
+// the calls of the operation that has just ended.
+func (w *world) reuseBuffers(ts *taskState) {
+	for _, b := range ts.scribble {
+		for i := range b {
+			b[i] = '#'
+		}
+	}
+	for _, t := range ts.scribbleT {
+		*t = time.Unix(1, 0) // long ago
+	}
+	if len(ts.scribble) > 0 {
+		w.e.Probe("value_buffers_overwritten_after_the_call")
+	}
+	ts.scribble, ts.scribbleT = nil, nil
+}
+
 func (ts *taskState) callerVer(w *world, key string) string {
 	if w.c.Knob("caller_versions", 0) == 0 {
 		return ""
@@ -471,7 +512,7 @@ func (w *world) doOp(ctx context.Context, ts *taskState, op sim.Op, i int) {
 		exp := expOf(op.D, t0)
 		// knob caller_versions: records are passed as they were read earlier (Version set); the
 		// storage assigns a fresh version all the same
-		ver, err := ts.cl.Create(ctx, kvs.Record{Key: op.S, Value: []byte(op.V), ExpiresAt: exp, Version: ts.callerVer(w, op.S)})
+		ver, err := ts.cl.Create(ctx, kvs.Record{Key: op.S, Value: w.buf(ts, op.V), ExpiresAt: w.expBuf(ts, exp), Version: ts.callerVer(w, op.S)})
 		o = outcome{Err: classify(err), Ver: ver}
 		t1 := time.Now()
 		if err == nil || o.Err == "ErrExist" {
@@ -495,6 +536,9 @@ func (w *world) doOp(ctx context.Context, ts *taskState, op sim.Op, i int) {
 	case "get":
 		r, err := ts.cl.Get(ctx, op.S)
 		o = recOut(r, err)
+		if err == nil && w.c.Knob("reuse_buffers", 0) == 1 && w.be.Kind == backend.InMem && len(r.Value) > 0 {
+			ts.scribble = append(ts.scribble, r.Value) // the caller works on what it was given
+		}
 		t1 := time.Now()
 		if err == nil {
 			ts.see(op.S, r.Version)
@@ -558,7 +602,7 @@ func (w *world) doOp(ctx context.Context, ts *taskState, op sim.Op, i int) {
 			op.V = "prev=" + ts.pickVer(op.S, 0)
 		}
 		exp := expOf(op.D, t0)
-		r, err := ts.cl.Put(ctx, kvs.Record{Key: op.S, Value: []byte(op.V), ExpiresAt: exp, Version: ts.callerVer(w, op.S)})
+		r, err := ts.cl.Put(ctx, kvs.Record{Key: op.S, Value: w.buf(ts, op.V), ExpiresAt: w.expBuf(ts, exp), Version: ts.callerVer(w, op.S)})
 		o = recOut(r, err)
 		if err == nil {
 			ts.see(op.S, r.Version)
@@ -593,7 +637,7 @@ func (w *world) doOp(ctx context.Context, ts *taskState, op sim.Op, i int) {
 		}
 		var recs []kvs.Record
 		for j, k := range keys {
-			rec := kvs.Record{Key: k, Value: []byte(vals[j]), ExpiresAt: exps[j]}
+			rec := kvs.Record{Key: k, Value: w.buf(ts, vals[j]), ExpiresAt: w.expBuf(ts, exps[j])}
 			if op.F {
 				// a caller that passes records it read earlier (Version set)
 				rec.Version = ts.pickVer(k, 0)
@@ -622,7 +666,7 @@ func (w *world) doOp(ctx context.Context, ts *taskState, op sim.Op, i int) {
 		if op.V == "@ver" {
 			op.V = "prev=" + ver
 		}
-		r, err := ts.cl.CasByVersion(ctx, kvs.Record{Key: op.S, Value: []byte(op.V), Version: ver, ExpiresAt: exp})
+		r, err := ts.cl.CasByVersion(ctx, kvs.Record{Key: op.S, Value: w.buf(ts, op.V), Version: ver, ExpiresAt: w.expBuf(ts, exp)})
 		o = outcome{Err: classify(err)}
 		t1 := time.Now()
 		if err == nil {
@@ -764,6 +808,7 @@ func (w *world) doOp(ctx context.Context, ts *taskState, op sim.Op, i int) {
 		w.mutTok.Unlock()
 	}
 	cv.register(&o)
+	w.reuseBuffers(ts)
 	e.Logf("%s %s -> %s", ts.name, w.canon(op.String()), w.canon(o.String()))
 	if strings.HasPrefix(o.Err, "other:") && (w.srvErrDuring(t0, time.Now()) || (len(w.srvErr) > 0 && strings.Contains(o.Err, "ERR injected"))) {
 		// (a reply of the refusing server may also reach a later call on the same connection:
